@@ -1,6 +1,7 @@
 """C15 — transformed histograms bin points by their true coordinates."""
 from __future__ import annotations
 
+import bisect
 import copy
 import itertools
 import math
@@ -463,9 +464,152 @@ def angle_regions(kind, v, E, span=None):
     return sorted(c)
 
 
+# ====================================================================== adaptive axes of transformed histograms (kind "adaptive")
+# A transformed histogram in which SOME axes are adaptive fixed-width binnings (the radial / rho / z axis of the facades with
+# `<axis>_bins="fixed_width", bin_width=w, adaptive=True`; the angular axes are static linspace bins), so that is_adaptive() of
+# the histogram (= all axes) is False while single axes grow. Widths are dyadic and the grid is k * w: every edge is exact.
+# Coordinates of the points are multiples of 1/8: r^2 is exact, and a radius is either exactly on a grid edge or at least
+# ~1e-4 away from it.
+ENABLE_ADAPTIVE = True
+AD_WIDTHS = [0.25, 0.5, 1.0, 2.0]
+AD_ANGLE_WIDTHS = [0.5, 1.0]
+AD_LEGS2 = [(3, 4), (6, 8), (5, 12), (8, 15), (0, 1), (0, 3), (0, 7)]            # integer legs with an integer hypotenuse
+AD_LEGS3 = [(1, 2, 2), (2, 3, 6), (4, 4, 7), (0, 3, 4), (0, 0, 5), (2, 6, 9)]
+AD_STATIC_EDGES = {"r": [[0.0, 1.0, 2.0, 4.0], [0.5, 1.5, 3.0], [0.0, 0.5, 8.0]],
+                   "z": [[-2.0, 0.0, 2.0], [-4.0, -1.0, 1.0, 4.0], [0.0, 1.0, 3.0]]}
+AD_PATH_LABELS = {"fill": "fill(point) one by one", "lshift": "h << point one by one", "fill_t": "fill(coordinates, transformed=True) one by one",
+                  "fill_n1": "fill_n([point]) one by one", "chunks": "fill_n of the points in chunks", "all": "fill_n of all points at once",
+                  "all_t": "fill_n(coordinates, transformed=True) of all points at once", "perm": "fill(point) one by one in another order",
+                  "mixed": "fill / fill_n([point]) / << alternating"}
+
+
+def eighths(rng, lo, hi):
+    return rng.randint(int(math.ceil(lo * 8)), int(math.floor(hi * 8))) / 8.0
+
+
+def ad_point(rng, dim, w, wz, style):
+    """one Cartesian point (coordinates in eighths) for a radial axis of width w and a z axis of width wz"""
+    reach, zreach = 2.5 + 6 * w, 2.5 + 6 * wz
+    sz = lambda: rng.choice([0.0, -0.0])
+    if style == "origin":
+        return [sz() for _ in range(dim)]
+    if style == "inside":
+        return [eighths(rng, -2, 2) for _ in range(dim)]
+    if style == "axis":            # on a coordinate axis: a multiple of the width (exactly on the grid) or beside it
+        p = [sz() for _ in range(dim)]
+        i = rng.randrange(dim)
+        ww = wz if i == 2 else w
+        p[i] = rng.choice([-1, 1]) * (rng.randint(0, 10) * ww + rng.choice([0.0, 0.0, 0.125]))
+        return p
+    if style == "grid":            # integer legs times the width: the radius is exactly on the grid
+        legs = list(rng.choice(AD_LEGS3 if dim == 3 and rng.random() < 0.5 else AD_LEGS2))
+        rng.shuffle(legs)
+        m = w * rng.choice([1, 1, 2]) if max(legs) * w * 2 <= 2 * reach else w
+        p = [rng.choice([-1, 1]) * l * m for l in legs]
+        if len(p) < dim:
+            p.append(rng.choice([-1, 1]) * rng.randint(0, 8) * wz)
+        return p
+    # far: outside the range of the first points
+    p = [eighths(rng, -reach, reach) for _ in range(dim)]
+    i = rng.randrange(dim)
+    p[i] = rng.choice([-1, 1]) * eighths(rng, 2.5, zreach if i == 2 else reach)
+    return p
+
+
+def window_regions(v, E, squared=False, tolerant=True, closed_last=True):
+    """exact_regions for an axis whose edges are far apart compared with the rounding of a double (grids of width >= 1/4, a few
+    static edges): only the edges next to the coordinate are compared exactly. `v` is the exact coordinate or its exact square;
+    the result counts regions as exact_regions does (-1 below, 0..nb-1, nb above); with `closed_last` the last edge belongs to the
+    last bin, else to the region above"""
+    nb = len(E) - 1
+    x = math.sqrt(float(v)) if squared else float(v)
+    i = bisect.bisect_right(E, x) - 1
+    lo, hi = max(i - 1, 0), min(i + 2, nb)
+
+    def sign(e):               # of coordinate - e
+        if squared:
+            if e < 0:
+                return 1
+            d = v - e * e
+        else:
+            d = v - e
+        return (d > 0) - (d < 0)
+    F = {j: Fraction(E[j]) for j in range(lo, hi + 1)}
+    k = lo - 1                 # the last edge <= coordinate (the edges before `lo` are, the ones after `hi` are not)
+    for j in range(lo, hi + 1):
+        if sign(F[j]) >= 0:
+            k = j
+    if k == nb and closed_last and sign(F[nb]) == 0:
+        k = nb - 1
+    out = {k}
+    if tolerant:
+        for j, e in F.items():
+            t = edge_tol(e)
+            l, h = e - t, e + t
+            near = ((l <= 0 or v >= l * l) and v <= h * h and h >= 0) if squared else (l <= v <= h)
+            if near:
+                out |= {j - 1, j}
+    return sorted(out)
+
+
+def same_counts_quick(a, b, keys=("bins", "shape", "freq", "err2", "missed", "under", "over")):
+    """same_counts; observables that are equal as written (the rational strings are canonical) are not parsed"""
+    for k in keys:
+        if (k in a or k in b) and a.get(k) != b.get(k):
+            r = same_counts(a, b, keys=(k,))
+            if r:
+                return r
+    return None
+
+
+def sparse_counts(name, S, nbs, bounds, total_w):
+    """check_counts for large, mostly empty histograms: a cell written as 0 that no point can be in is not parsed"""
+    L, U, L2, U2 = bounds[:4]
+    if list(S["shape"]) != list(nbs):
+        return [f"shape: {name} has shape {S['shape']}, its bins {nbs}"]
+    fails = []
+    total = Fraction(0)
+    for n, cell in enumerate(itertools.product(*[range(nb) for nb in nbs])):
+        sf, se = S["freq"][n], S["err2"][n]
+        if sf == "0" and se == "0" and cell not in U:
+            continue
+        f, e2 = Fraction(sf), Fraction(se)
+        total += f
+        lo, hi = L.get(cell, 0), U.get(cell, 0)
+        if not (lo <= f <= hi):
+            fails.append(f"wrong_bin: {name}: bin {list(cell)} holds {float(f)}, the points with true coordinates inside it weigh "
+                         f"{float(lo)}" + (f" (up to {float(hi)} with points on its edges)" if hi != lo else ""))
+            break
+        lo, hi = L2.get(cell, 0), U2.get(cell, 0)
+        if not (lo <= e2 <= hi):
+            fails.append(f"wrong_err2: {name}: bin {list(cell)} has errors2 {float(e2)}, expected {float(lo)}..{float(hi)}")
+            break
+    if fails:
+        return fails
+    missed = Fraction(S["missed"]) if S["missed"] not in (None, "inf", "-inf") else None
+    if len(nbs) == 1:
+        for k in ("under", "over"):
+            v = Fraction(S[k]) if S.get(k) is not None else None
+            if v is None or not (L.get(k, 0) <= v <= U.get(k, 0)):
+                fails.append(f"outside_range: {name}: {k}flow = {S.get(k)}, the points outside on that side weigh {float(L.get(k, 0))}..{float(U.get(k, 0))}")
+    elif missed is None or not (L.get("missed", 0) <= missed <= U.get("missed", 0)):
+        fails.append(f"outside_range: {name}: missed = {S['missed']}, the points outside the bins weigh {float(L.get('missed', 0))}..{float(U.get('missed', 0))}")
+    if missed is not None and total + missed != total_w:
+        fails.append(f"lost_weight: {name}: contents {float(total)} + missed {float(missed)} != entered weight {float(total_w)}")
+    return fails
+
+
+def ad_edges(axis_bins):
+    """edge list (floats) of the bins of one axis of a snapshot ([] for an axis without bins); None if they are not consecutive"""
+    pairs = [(float(Fraction(l)), float(Fraction(r))) for l, r in axis_bins]
+    if not pairs:
+        return []
+    return edges_of(pairs)
+
+
 class C15:
     ID = "C15"
-    N_QUICK = 690      # 520 + the share of the chain stream (every 8th case) + the share of the extreme-magnitude stream (every 7th)
+    N_QUICK = 770      # 520 + the shares of the chain stream (every 8th case), the extreme-magnitude stream (every 7th) and the adaptive-axes stream (every 9th)
     N_THOROUGH = 14000
     N_SEARCH = 400
     RULE = ("the six transformed classes (+ cylinder surface) with irregular bins in their own coordinates (full or partial "
@@ -497,13 +641,31 @@ class C15:
             "rescaled by a power of two; find_bin / fill / fill_n / facade (columns and array), each also with transformed=True, put "
             "every point into the bin holding its exact radius (r^2 against edge^2 as rationals; within 1e-9 of an edge either side) "
             "and agree with each other; the radial histogram of the points equals the r projection (a RadialHistogram) of their polar "
-            "/ spherical / cylindrical histogram. non-trivial = points in at least two "
-            "different bins (special, facade, chain), at least one invalid call (baddims), a non-empty histogram (radius); "
+            "/ spherical / cylindrical histogram. kind adaptive (every 9th case, stream:adaptive_axes): transformed histograms in which "
+            "SOME axes are adaptive fixed-width binnings (r / rho / z, also theta / phi; dyadic widths 0.25 .. 2 on the grid k * w) and "
+            "the others static, so that is_adaptive() of the histogram is False (all axes adaptive and the 1-D classes as the control), "
+            "built by the facade with adaptive= (one value / a list per axis), by the facade + set_adaptive of single binnings, or from "
+            "binning objects (also without bins yet) x first points around the origin or in a shell away from it x 1-8 points inside "
+            "and outside the current bins (farther out, below the first edge, negative z, exactly on a grid edge by integer legs, on the "
+            "axes, the origin with signed zeros; weights) entered into independently built twins by fill, h << point, "
+            "fill(transformed=True), fill_n([point]), fill_n in chunks, fill_n of all points (also transformed=True), the three single "
+            "paths alternating, and fill in another order: after every single step the point lies inside the bins of every adaptive "
+            "axis (nothing an adaptive axis can hold is missed), the index fill returns is the bin of the true coordinates (radius by "
+            "exact squares, z exactly) in the bins as they then are and the one find_bin gives afterwards (point and transformed "
+            "coordinates); find_bin before the fill changes nothing; the final bins are consecutive cells of the grid, static axes "
+            "unchanged; contents / errors2 / missed are the exact expectation; all twins have identical bins, contents, errors2 and "
+            "missed (after every step for the single paths; per bin for the other order). non-trivial = points in at least two "
+            "different bins (special, facade, chain), at least one invalid call (baddims), a non-empty histogram (radius), an adaptive axis "
+            "that had to grow (adaptive); "
             "distinct = case hash")
     ASSUMPTIONS = ["libm hypot / atan2 / cos are accurate to a few ulps; transformed coordinates are compared within 4 ulps, "
                    "bins exactly on the implementation's own coordinates",
                    "kind extreme: a subnormal rho = hypot(x, y) carries no relative precision; theta derived from it is accepted within the "
                    "interval that two subnormal steps of rho span; phi = 0 and phi = 2 pi are one direction (an angle of -1e-400 rounds to -0.0)"]
+    ASSUMPTIONS = ASSUMPTIONS + ["kind adaptive: a radius lying exactly on an edge of the grid (integer legs) may be counted on either side of that edge by "
+                                 "the exact expectation; the independently built twins must agree with each other exactly all the same. The first "
+                                 "histogram's binnings (width, first grid index, count, flags) are read from the implementation's binning objects "
+                                 "to start the model from the same state (of_arrays); its contents are judged by the oracle"]
     EXTRA_TRUST = ["the coordinate theorems are over the real numbers with Complex.arg as atan2; floating-point evaluation is checked by correspondence"]
 
     def gen_case(self, rng, k, tier):
@@ -513,6 +675,8 @@ class C15:
             return self.gen_chain(rng)
         if ENABLE_EXTREME and k % 7 == 5:
             return self.gen_extreme(rng)
+        if ENABLE_ADAPTIVE and k % 9 == 1:
+            return self.gen_adaptive(rng)
         r = rng.random()
         if r < 0.45:
             return self.gen_special(rng)
@@ -1717,6 +1881,545 @@ class C15:
         except OverflowError:
             return math.inf
 
+    # ================================================================== kind "adaptive": some axes grow, the others are static
+    def gen_adaptive(self, rng):
+        """a transformed histogram with adaptive fixed-width axes (some, not all; also all as the control) built through the facade
+        (`adaptive=` keyword), through the facade + set_adaptive of single binnings, or from binning objects; then a sequence of
+        points inside / outside the current bins entered by every path into independently built twins"""
+        klass = rng.choice(["PolarHistogram"] * 4 + ["CylindricalHistogram"] * 4 + ["SphericalHistogram"] * 3
+                           + ["CylindricalSurfaceHistogram"] * 2 + ["SphericalSurfaceHistogram", "RadialHistogram", "RadialHistogram", "AzimuthalHistogram"])
+        kinds = KIND[klass]
+        nd = len(kinds)
+        dim = rng.choice(SRC_DIM[klass])
+        build = rng.choice(["facade"] * 3 + ["set_adaptive"] * 2 + ["class"] * 2)
+        lin = [a for a, kd in enumerate(kinds) if kd in ("r", "z")]
+        ang = [a for a, kd in enumerate(kinds) if kd not in ("r", "z")]
+        q = rng.random()
+        if nd == 1:
+            adaptive, pattern = [0], "all"
+        elif lin and q < 0.72:
+            adaptive, pattern = sorted(rng.sample(lin, rng.randint(1, len(lin)))), "some"
+        elif q < 0.86 or not lin:
+            adaptive, pattern = [rng.choice(ang)] + [a for a in lin if rng.random() < 0.5], "some"
+        else:
+            adaptive, pattern = list(range(nd)), "all"
+        w = rng.choice(AD_WIDTHS)
+        wz = w if rng.random() < 0.5 else rng.choice(AD_WIDTHS)
+        spec = []
+        for a, kd in enumerate(kinds):
+            if a in adaptive or (kd in ("r", "z") and rng.random() < 0.5):
+                s = {"t": "fw", "w": (w if kd == "r" else wz) if kd in ("r", "z") else rng.choice(AD_ANGLE_WIDTHS), "adaptive": a in adaptive}
+                # bins of the class built from binning objects: (first grid index, number of bins); 0 bins = still empty
+                if kd == "r":
+                    s["tmin"], s["count"] = rng.choice([0, 0, 2, 4]), rng.choice([0, 1, 3, 6] if a in adaptive else [3, 6, 12])
+                elif kd == "z":
+                    s["tmin"], s["count"] = rng.choice([-4, -1, 0, 2]), rng.choice([0, 1, 3, 6] if a in adaptive else [3, 6, 12])
+                else:
+                    s["tmin"], s["count"] = 0, rng.choice([0, 2, 7] if a in adaptive else [7, 13])
+            elif kd in ANGLE_FULL:
+                top = ANGLE_FULL[kd][1]
+                rg = None
+                if rng.random() < 0.2:
+                    lo = rng.choice([0.5, 1.0, 1.5])
+                    rg = [lo, lo + rng.choice([1.0, 1.5])]
+                s = {"t": "int", "n": rng.choice([1, 2, 3, 4, 4, 8]), "range": rg}
+            else:
+                s = {"t": "edges", "e": list(rng.choice(AD_STATIC_EDGES[kd]))}
+            spec.append(s)
+        # the first points (the data of the facade; entered by fill_n into the class built from binning objects)
+        shell = rng.random() < 0.35           # away from the origin and above z = 1: the axes must also grow downwards later
+        n0 = rng.choice([2, 3, 5, 8, 12] + ([0, 0, 1] if build == "class" else [1]))     # (a 1-D facade refuses data that give no bins)
+        init = []
+        for _ in range(n0):
+            for attempt in range(50):
+                p = [eighths(rng, -2, 2) for _ in range(dim)]
+                if shell and dim == 3:
+                    p[2] = eighths(rng, 1, 2.5)
+                if not shell or (p[0] ** 2 + p[1] ** 2 >= 2.25):
+                    break
+            init.append(p)
+        init_ws = [rng.choice([1, 2, 0.5]) for _ in init] if (init and rng.random() < 0.2) else None
+        m = rng.choice([1, 1, 2, 3, 4, 6, 8])
+        styles = [rng.choice(["far"] * 5 + ["grid"] * 3 + ["inside"] * 3 + ["axis"] * 2 + ["origin"]) for _ in range(m)]
+        if "far" not in styles and "grid" not in styles and rng.random() < 0.8:
+            styles[rng.randrange(m)] = "far"
+        pts = [[float(c) for c in ad_point(rng, dim, w, wz, st)] for st in styles]
+        ws = [rng.choice([1, 2, 0.5]) for _ in pts] if rng.random() < 0.3 else None
+        chunks, left = [], m
+        while left:
+            c = rng.randint(1, min(4, left))
+            chunks.append(c)
+            left -= c
+        perm = list(range(m))
+        rng.shuffle(perm)
+        # the keywords of the facade: one value for all axes, or a list with None for the axes that are not fixed-width
+        fw = [a for a, s in enumerate(spec) if s["t"] == "fw"]
+        same_w = len({spec[a]["w"] for a in fw}) == 1
+        kw_form = {"bin_width": "scalar" if same_w and rng.random() < 0.5 else "list",
+                   "adaptive": "scalar" if all(spec[a]["adaptive"] for a in fw) and rng.random() < 0.5 else "list"}
+        tags = ["kind:adaptive", "stream:adaptive_axes", "class:" + klass, f"dim:{dim}", "build:" + build, "adaptive_axes:" + pattern]
+        tags += ["adaptive:" + (kinds[a] if kinds[a] != "r" or klass != "CylindricalHistogram" else "rho") for a in adaptive]
+        tags += ["points:" + st for st in set(styles)]
+        if shell:
+            tags.append("first_points:shell")
+        if n0 == 0:
+            tags.append("first_points:none")
+        return {"kind": "adaptive", "class": klass, "dim": dim, "build": build, "spec": spec, "kw_form": kw_form,
+                "form": rng.choice(["cols", "array"]) if (klass == "RadialHistogram" and dim == 3) else ("cols" if dim == 2 else "array"),
+                "init": init, "init_weights": init_ws, "points": pts, "weights": ws, "chunks": chunks, "perm": perm,
+                "nan_row": False, "tags": sorted(set(tags))}
+
+    @staticmethod
+    def adaptive_build(sp, case):
+        """the histogram of the case, built anew (every call creates its own binning objects)"""
+        from physt.binnings import FixedWidthBinning
+        klass = getattr(sp, case["class"])
+        fn = FACADE_OF[case["class"]]
+        _, prefixes = FACADES[fn]
+        spec = case["spec"]
+        nd = len(spec)
+        init = np.array(case["init"], dtype=float).reshape(len(case["init"]), case["dim"])
+        W0 = None if case["init_weights"] is None else np.array(case["init_weights"], dtype=float)
+
+        def static_edges(s, kd):
+            if s["t"] == "edges":
+                return np.array(s["e"], dtype=float)
+            lo, hi = s["range"] or ANGLE_FULL[kd]
+            return np.linspace(lo, hi, s["n"] + 1)
+        if case["build"] == "class":
+            bs = []
+            for s, kd in zip(spec, KIND[case["class"]]):
+                if s["t"] == "fw":
+                    kw = {"bin_width": s["w"], "bin_count": s["count"], "adaptive": bool(s["adaptive"])}
+                    if s["count"] > 0:
+                        kw["bin_times_min"] = s["tmin"]
+                    bs.append(FixedWidthBinning(**kw))
+                else:
+                    bs.append(static_edges(s, kd))
+            h = klass(bs[0]) if nd == 1 else klass(bs)
+            if len(init):
+                h.fill_n(init, weights=W0)
+            return h
+        kw = {}
+        for s, pre, kd in zip(spec, prefixes, KIND[case["class"]]):
+            bname, rname = (pre + "_bins", pre + "_range") if pre else ("bins", "range")
+            if s["t"] == "fw":
+                kw[bname] = "fixed_width"
+            elif s["t"] == "edges":
+                kw[bname] = np.array(s["e"], dtype=float)
+            else:
+                kw[bname] = int(s["n"])
+                if s["range"] is not None:
+                    kw[rname] = (float(s["range"][0]), float(s["range"][1]))
+        fw = [a for a, s in enumerate(spec) if s["t"] == "fw"]
+        if nd == 1:
+            kw["bin_width"] = spec[0]["w"]
+        elif case["kw_form"]["bin_width"] == "scalar":
+            kw["bin_width"] = spec[fw[0]]["w"]
+        else:
+            kw["bin_width"] = [s["w"] if s["t"] == "fw" else None for s in spec]
+        if case["build"] == "facade":
+            if nd == 1 or case["kw_form"]["adaptive"] == "scalar":
+                kw["adaptive"] = True
+            else:
+                kw["adaptive"] = [bool(s["adaptive"]) if s["t"] == "fw" else None for s in spec]
+        if W0 is not None:
+            kw["weights"] = W0
+        f = getattr(sp, fn)
+        if fn in ("polar", "azimuthal"):
+            h = f(init[:, 0].copy(), init[:, 1].copy(), **kw)
+        elif fn == "radial" and (case["form"] == "cols" or init.shape[1] == 2):
+            h = f(*[init[:, i].copy() for i in range(init.shape[1])], **kw)
+        else:
+            h = f(init.copy(), **kw)
+        if case["build"] == "set_adaptive":
+            for a, s in enumerate(spec):
+                if s["t"] == "fw" and s["adaptive"]:
+                    (h.binning if nd == 1 else h.binnings[a]).set_adaptive(True)
+        return h
+
+    def run_adaptive(self, case):
+        from physt import special_histograms as sp
+        klass = getattr(sp, case["class"])
+        nd = len(case["spec"])
+        log, out = [], {"dyn_tags": []}
+        P = np.array(case["points"], dtype=float)
+        ws = case["weights"]
+        W = None if ws is None else np.array(ws, dtype=float)
+        m = len(P)
+
+        def wt(j):
+            return 1 if ws is None else ws[j]
+
+        def binnings(h):
+            return [h.binning] if nd == 1 else list(h.binnings)
+
+        def snap(h):
+            s = implnd.snapn(h)
+            s = {k: s[k] for k in ("bins", "freq", "err2", "missed", "shape", "dtype", "_class")}
+            s["axes"] = [impl1.binning_meta(b) for b in binnings(h)]
+            s["hist_adaptive"] = bool(h.is_adaptive())
+            if nd == 1:
+                s["under"], s["over"], s["inner"] = nrs(h.underflow), nrs(h.overflow), nrs(h.inner_missed)
+            return s
+
+        def idx(i):
+            if i is None:
+                return None
+            return [int(j) for j in np.atleast_1d(i)] if nd > 1 else int(i)
+
+        def edges_now(h):
+            return [[nrs(x) for x in np.asarray(b.numpy_bins, dtype=float).ravel()] if b.bin_count else [] for b in binnings(h)]
+
+        def attempt(name, f):
+            try:
+                return f()
+            except Exception as ex:
+                log.append(f"{name}: {type(ex).__name__}: {ex}"[:200])
+                return None
+
+        def make():
+            return self.adaptive_build(sp, case)
+        h0 = attempt("building the histogram", make)
+        if h0 is None:
+            out["init"] = None
+            return {"outs": out, "log": log}
+        out["init"] = snap(h0)
+        T = np.asarray(klass.transform(P), dtype=float).reshape(m, -1)
+        out["transformed"] = [[nrs(x) for x in row] for row in T]
+        T0 = np.asarray(klass.transform(np.array(case["init"], dtype=float)), dtype=float).reshape(len(case["init"]), -1) if case["init"] else []
+        out["init_transformed"] = [[nrs(x) for x in row] for row in T0]
+
+        def tv(t):
+            return t if nd > 1 else float(t[0])
+
+        def single(name, enter, with_find):
+            """one twin, the points entered one by one; the state of the axes is recorded after every step"""
+            h = attempt(name + " (build)", make)
+            if h is None:
+                return None
+            res = {"rets": [], "find_before": [], "find_after": [], "find_after_t": [], "edges": [], "missed": [], "find_changes": False}
+            try:
+                for j in range(m):
+                    if with_find:
+                        before = (tuple(h.shape), np.asarray(h.frequencies).copy())
+                        res["find_before"].append(idx(h.find_bin(P[j])))
+                        if tuple(h.shape) != before[0] or not np.array_equal(np.asarray(h.frequencies), before[1]):
+                            res["find_changes"] = True
+                    res["rets"].append(idx(enter(h, j)))
+                    res["edges"].append(edges_now(h))
+                    res["missed"].append(nrs(h.missed))
+                    if with_find:
+                        res["find_after"].append(idx(h.find_bin(P[j])))
+                        res["find_after_t"].append(idx(h.find_bin(tv(T[j]), transformed=True)))
+            except Exception as ex:
+                log.append(f"{name}: {type(ex).__name__}: {ex}"[:200])
+                return None
+            res["final"] = snap(h)
+            return res
+
+        def lshift(h, j):
+            h << P[j]
+
+        def fill_n1(h, j):
+            h.fill_n(P[j:j + 1], weights=None if W is None else W[j:j + 1].copy())
+
+        def mixed(h, j):
+            if j % 3 == 0:
+                return h.fill(P[j], wt(j))
+            if j % 3 == 1 or ws is not None:
+                return fill_n1(h, j)
+            return lshift(h, j)
+        out["fill"] = single("fill", lambda h, j: h.fill(P[j], wt(j)), True)
+        out["fill_t"] = single("fill(transformed=True)", lambda h, j: h.fill(tv(T[j]), wt(j), transformed=True), True)
+        out["fill_n1"] = single("fill_n([point])", fill_n1, False)
+        out["mixed"] = single("fill / fill_n / <<", mixed, False)
+        if ws is None:
+            out["lshift"] = single("h << point", lshift, False)
+
+        def whole(name, f):
+            h = attempt(name + " (build)", make)
+            if h is None:
+                return None
+            try:
+                f(h)
+            except Exception as ex:
+                log.append(f"{name}: {type(ex).__name__}: {ex}"[:200])
+                return None
+            return {"final": snap(h)}
+
+        def chunks(h):
+            a = 0
+            for c in case["chunks"]:
+                h.fill_n(P[a:a + c], weights=None if W is None else W[a:a + c].copy())
+                a += c
+
+        def permuted(h):
+            for j in case["perm"]:
+                h.fill(P[j], wt(j))
+        out["chunks"] = whole("fill_n in chunks", chunks)
+        out["all"] = whole("fill_n", lambda h: h.fill_n(P.copy(), weights=None if W is None else W.copy()))
+        out["all_t"] = whole("fill_n(transformed=True)",
+                             lambda h: h.fill_n(T.copy() if nd > 1 else T[:, 0].copy(), weights=None if W is None else W.copy(), transformed=True))
+        out["perm"] = whole("fill in another order", permuted)
+        out["points_after"] = [[nrs(x) for x in row] for row in P]
+        req = [bool(s["t"] == "fw" and s["adaptive"]) for s in case["spec"]]
+        got = [bool(a.get("adaptive", False)) for a in out["init"]["axes"]]
+        if req != got:
+            out["dyn_tags"].append("adaptive_flags:not_as_requested")
+        out["dyn_tags"].append("hist.is_adaptive():" + str(out["init"]["hist_adaptive"]))
+        fin = out["fill"]["final"] if out["fill"] else None
+        out["grew"] = bool(fin is not None and fin["shape"] != out["init"]["shape"])
+        if out["grew"]:
+            out["dyn_tags"].append("adaptive:grew")
+        return {"outs": out, "log": log}
+
+    @staticmethod
+    def adaptive_regions(klass, p, E, closed=None):
+        """per axis the regions (-1 below, 0..nb-1, nb above) that may hold the true coordinate of the Cartesian point p: the
+        radius by exact squares (a radius exactly on an edge: either side), z exactly (the last edge belongs to the last bin only
+        where the binning includes its right edge), the angles within 1e-9 of an edge on either side"""
+        regs = []
+        for a, (kd, e) in enumerate(zip(KIND[klass], E)):
+            if len(e) < 2:
+                regs.append([0])           # no bins yet: everything is "above"
+            elif kd == "r":
+                n = R_COLUMNS[klass]
+                regs.append(window_regions(r2_exact(p[:n] if n else p), e, squared=True, tolerant=True))
+            elif kd == "z":
+                regs.append(window_regions(Fraction(float(p[2])), e, tolerant=False, closed_last=True if closed is None else closed[a]))
+            else:
+                regs.append(axis_candidates(sem_coord(kd, p) if kd == "theta" else math.atan2(p[1], p[0]) % TWO_PI, e))
+        return regs
+
+    def oracle_adaptive(self, case, io):
+        o = io["outs"]
+        klass = case["class"]
+        kinds = KIND[klass]
+        nd = len(kinds)
+        I = o["init"]
+        how = {"facade": f"{FACADE_OF[klass]}(..., adaptive=...)", "set_adaptive": f"{FACADE_OF[klass]}(...) + set_adaptive of single binnings",
+               "class": f"{klass}(binning objects)"}[case["build"]]
+        if I is None:
+            return [f"paths_refused: building the histogram by {how} raised: " + "; ".join(io["log"][:1])]
+        fails = []
+        if I["_class"] != klass:
+            fails.append(f"facade_class: {how} returned a {I['_class']}")
+        P, P0 = case["points"], case["init"]
+        ws = case["weights"] if case["weights"] is not None else [1] * len(P)
+        ws0 = case["init_weights"] if case["init_weights"] is not None else [1] * len(P0)
+        meta = I["axes"]
+        ad = [bool(a.get("adaptive", False)) for a in meta]
+        if o["points_after"] != [[nrs(x) for x in p] for p in P]:
+            fails.append("input_modified: the caller's array of points was modified")
+        names = [("rho" if klass == "CylindricalHistogram" and kd == "r" else kd) for kd in kinds]
+
+        closed = [bool(a.get("ire", False)) for a in meta]
+        memo = {}
+
+        def regions(p, E):
+            key = (tuple(float(c).hex() for c in p), tuple(tuple(e) for e in E))      # (hex: -0.0 and 0.0 are different points)
+            if key not in memo:
+                regs = self.adaptive_regions(klass, p, E, closed)
+                nbs = [len(e) - 1 for e in E]
+                memo[key] = (regs, {slot(c, nbs) for c in itertools.product(*regs)} if all(n >= 1 for n in nbs) else None)
+            return memo[key]
+
+        def coords(p):
+            return py_transform(klass, p)
+
+        def where(got, nbs):
+            if nd == 1:
+                return None if got is None else ("under" if got < 0 else ("over" if got >= nbs[0] else (got,)))
+            return "missed" if got is None else tuple(got)
+
+        def grid_fail(label, S):
+            """the bins of a snapshot: static axes unchanged, fixed-width axes consecutive bins on the grid of the first
+            histogram that still cover its bins"""
+            for a, mt in enumerate(meta):
+                if mt["t"] != "fixed":
+                    if S["bins"][a] != I["bins"][a]:
+                        return f"grown_bins: {label}: the bins of the static axis {a} ({names[a]}) changed"
+                    continue
+                w, sh = Fraction(mt["w"]), Fraction(mt["shift"])
+                ks = []
+                for l, r in S["bins"][a]:
+                    k = (Fraction(l) - sh) / w
+                    if k.denominator != 1 or Fraction(r) != sh + (k + 1) * w:
+                        return (f"grown_bins: {label}: axis {a} ({names[a]}) has the bin [{float(Fraction(l))}, {float(Fraction(r))}], "
+                                f"not a cell of its grid of width {float(w)}")
+                    ks.append(int(k))
+                if any(ks[i + 1] != ks[i] + 1 for i in range(len(ks) - 1)):
+                    return f"grown_bins: {label}: the bins of axis {a} ({names[a]}) are not consecutive: {[float(Fraction(l)) for l, _ in S['bins'][a]]}"[:400]
+                if mt["count"] > 0 and (not ks or ks[0] > mt["tmin"] or ks[-1] < mt["tmin"] + mt["count"] - 1):
+                    return f"grown_bins: {label}: axis {a} ({names[a]}) lost bins it had before the points were entered"
+                if not ad[a] and len(ks) != mt["count"]:
+                    return f"grown_bins: {label}: the bins of the non-adaptive axis {a} ({names[a]}) changed"
+            return None
+
+        def held_fail(label, p, E):
+            """a finite point entered into the histogram lies inside the bins of every adaptive axis"""
+            regs = regions(p, E)[0]
+            for a in range(nd):
+                nb = len(E[a]) - 1
+                if ad[a] and not any(0 <= r < nb for r in regs[a]):
+                    span = f"lies outside the bins [{E[a][0]}, {E[a][-1]}] of" if nb >= 1 else "was entered and there are still no bins on"
+                    return (f"not_grown: {label}: the point {p} with {names[a]} = {coords(p)[a]!r} {span} the "
+                            f"adaptive axis {a} ({names[a]}) after it was entered: an adaptive axis holds every finite value")
+            return None
+
+        def bounds_for(E):
+            nbs = [len(e) - 1 for e in E]
+            L, U, L2, U2 = defaultdict(Fraction), defaultdict(Fraction), defaultdict(Fraction), defaultdict(Fraction)
+            for p, w in list(zip(P0, ws0)) + list(zip(P, ws)):
+                slots = regions(p, E)[1]
+                w = Fraction(w)
+                if len(slots) == 1:
+                    k = next(iter(slots))
+                    L[k] += w; L2[k] += w * w
+                for k in slots:
+                    U[k] += w; U2[k] += w * w
+            return (L, U, L2, U2), nbs
+        total_w = sum(Fraction(w) for w in list(ws) + list(ws0))
+
+        def final_fail(name, S):
+            """the final histogram of one path against the exact expectation"""
+            label = AD_PATH_LABELS[name]
+            f = grid_fail(label, S)
+            if f:
+                return [f]
+            E = [ad_edges(ax) for ax in S["bins"]]
+            if any(e is None for e in E):
+                return [f"grown_bins: {label}: bins with gaps"]
+            for p in list(P0) + list(P):
+                f = held_fail(label, p, E)
+                if f:
+                    return [f]
+            if any(len(e) < 2 for e in E):
+                return []                    # nothing entered, no bins: nothing to count
+            b, nbs = bounds_for(E)
+            return sparse_counts(label, S, nbs, b, total_w)
+        # (a) the first histogram (facade / class + fill_n of the first points) holds the first points
+        if not fails:
+            E0 = [ad_edges(ax) for ax in I["bins"]]
+            if any(e is None for e in E0):
+                return [f"grown_bins: {how}: bins with gaps"]
+            if all(len(e) >= 2 for e in E0) and P0:
+                nbs0 = [len(e) - 1 for e in E0]
+                L, U, L2, U2 = defaultdict(Fraction), defaultdict(Fraction), defaultdict(Fraction), defaultdict(Fraction)
+                for p, w in zip(P0, ws0):
+                    slots = regions(p, E0)[1]
+                    w = Fraction(w)
+                    if len(slots) == 1:
+                        k = next(iter(slots))
+                        L[k] += w; L2[k] += w * w
+                    for k in slots:
+                        U[k] += w; U2[k] += w * w
+                fails += sparse_counts(how, I, nbs0, (L, U, L2, U2), sum(Fraction(w) for w in ws0))
+                for p in P0:
+                    f = held_fail(how, p, E0)
+                    if f:
+                        fails.append(f)
+                        break
+        # (b) every path: refused?, final bins on the grid, every point held by the adaptive axes, contents exact
+        paths = [n for n in ("fill", "lshift", "fill_t", "fill_n1", "mixed", "chunks", "all", "all_t", "perm") if n in o]
+        for name in paths:
+            if o[name] is None:
+                fails.append(f"paths_refused: {AD_PATH_LABELS[name]} raised on valid points: " + "; ".join(l for l in io["log"])[:300])
+            else:       # (the same complaint about several paths is reported once: the twins are compared below)
+                fails += [f for f in final_fail(name, o[name]["final"]) if not any(g.startswith(f.split(":")[0] + ":") for g in fails)]
+        # (c) single fills: the index returned is the bin of the true coordinates in the bins as they are after the fill, and the one
+        # find_bin gives afterwards (Cartesian point and transformed coordinates); find_bin before the fill changes nothing
+        for name in ("fill", "fill_t"):
+            R = o.get(name)
+            if R is None:
+                continue
+            label = AD_PATH_LABELS[name]
+            prev = [ad_edges(ax) for ax in I["bins"]]
+            for j, p in enumerate(P):
+                E = [[float(Fraction(x)) for x in e] for e in R["edges"][j]]
+                nbs = [max(len(e) - 1, 0) for e in E]
+                f = held_fail(label + f" (step {j})", p, E)
+                if f:
+                    if not any(g.startswith("not_grown:") for g in fails):
+                        fails.append(f)
+                    break
+                if all(len(e) >= 2 for e in E):
+                    slots = regions(p, E)[1]
+                    if where(R["rets"][j], nbs) not in slots:
+                        fails.append(f"wrong_bin: {label}: step {j}: the point {p} with true coordinates {coords(p)} is put in {R['rets'][j]} of the bins "
+                                     f"{E}, it belongs to {sorted(map(str, slots))}"[:700])
+                        break
+                for other in ("find_after", "find_after_t"):
+                    if R[other][j] != R["rets"][j]:
+                        fails.append(f"paths_index: {label}: step {j}: fill returned {R['rets'][j]} for the point {p}, find_bin"
+                                     f"{'(transformed=True)' if other.endswith('_t') else ''} afterwards gives {R[other][j]}")
+                        break
+                else:
+                    if prev is not None and all(e is not None and len(e) >= 2 for e in prev):
+                        nbp = [len(e) - 1 for e in prev]
+                        slots = regions(p, prev)[1]
+                        if where(R["find_before"][j], nbp) not in slots:
+                            fails.append(f"wrong_bin: find_bin (before the point is entered): the point {p} with true coordinates {coords(p)} is found "
+                                         f"in {R['find_before'][j]} of the bins {prev}, it belongs to {sorted(map(str, slots))}"[:700])
+                            break
+                    prev = E
+                    continue
+                break
+            if R["find_changes"]:
+                fails.append("find_bin_mutates: find_bin changed the histogram")
+        def tell(X, Y, k):
+            """the observable k of two snapshots in readable form"""
+            def spans(S):
+                return "bins " + ", ".join(f"{names[a]}: {len(ax)}" + (f" in [{float(Fraction(ax[0][0]))}, {float(Fraction(ax[-1][1]))}]" if ax else "")
+                                           for a, ax in enumerate(S["bins"]))
+            if k in ("bins", "shape"):
+                return spans(X), spans(Y)
+            if k in ("freq", "err2"):
+                n = next((i for i, (x, y) in enumerate(zip(X[k], Y[k])) if x != y and Fraction(x) != Fraction(y)), 0)
+                cell = list(np.unravel_index(n, X["shape"])) if X["shape"] and all(X["shape"]) else []
+                word = "contents" if k == "freq" else "errors2"
+                return (f"{word} {float(Fraction(X[k][n]))} in bin {[int(c) for c in cell]}", f"{float(Fraction(Y[k][n]))}")
+            return f"{k} = {X.get(k)}", f"{Y.get(k)}"
+        # (d) the twins: the same points through another entry path give the same histogram (bins grown alike, contents, errors2, missed)
+        base = o.get("fill")
+        if base is not None:
+            B = base["final"]
+            for name in paths:
+                if name in ("fill", "perm") or o[name] is None:
+                    continue
+                k = same_counts_quick(o[name]["final"], B)
+                if k and not any(g.startswith(f"paths_{k}:") for g in fails):
+                    fails.append(f"paths_{k}: the same points entered into two histograms built by the same call: {AD_PATH_LABELS[name]} gives "
+                                 f"{tell(o[name]['final'], B, k)[0]}, {AD_PATH_LABELS['fill']} {tell(o[name]['final'], B, k)[1]}"[:700])
+            for name in ("fill_t", "fill_n1", "lshift", "mixed"):
+                R = o.get(name)
+                if R is None:
+                    continue
+                for j in range(len(P)):
+                    if R["edges"][j] != base["edges"][j] or R["missed"][j] != base["missed"][j]:
+                        what = "bins" if R["edges"][j] != base["edges"][j] else "missed"
+                        fails.append(f"paths_{what}: after step {j} (point {P[j]}) {AD_PATH_LABELS[name]} has "
+                                     + (f"{[max(len(e) - 1, 0) for e in R['edges'][j]]} bins" if what == "bins" else f"missed = {R['missed'][j]}") + ", "
+                                     + f"{AD_PATH_LABELS['fill']} " + (f"{[max(len(e) - 1, 0) for e in base['edges'][j]]}" if what == "bins" else f"{base['missed'][j]}"))
+                        break
+                if name == "fill_t" and R["rets"] != base["rets"]:
+                    j = next(i for i, (x, y) in enumerate(zip(R["rets"], base["rets"])) if x != y)
+                    fails.append(f"paths_index: fill(transformed=True) returns {R['rets'][j]} for the coordinates of the point {P[j]}, fill of the point {base['rets'][j]}")
+            # another order: the same contents in the same bins (bins without content may differ in number)
+            if o.get("perm") is not None:
+                def sparse(S):
+                    cells = {}
+                    shape = S["shape"]
+                    for n, cell in enumerate(itertools.product(*[range(k) for k in shape])):
+                        f, e2 = Fraction(S["freq"][n]), Fraction(S["err2"][n])
+                        if f != 0 or e2 != 0:
+                            cells[tuple(tuple(S["bins"][a][i]) for a, i in enumerate(cell))] = (f, e2)
+                    return cells, (None if S["missed"] is None else Fraction(S["missed"]))
+                if sparse(o["perm"]["final"]) != sparse(B):
+                    fails.append(f"paths_order: entering the points in the order {case['perm']} by fill gives other contents per bin (or missed "
+                                 f"{o['perm']['final']['missed']}) than in the given order (missed {B['missed']})")
+        return fails[:6]
 
     # ------------------------------------------------------------------ model: base ND histogram on the transformed coordinates
     @staticmethod
@@ -1735,6 +2438,8 @@ class C15:
         return None
 
     def model_case(self, case, io):
+        if case.get("kind") == "adaptive":
+            return self.model_adaptive(case, io)
         E = self.model_axes(case, io)
         if E is None:
             return None
@@ -1759,7 +2464,81 @@ class C15:
         ops.append({"op": "fill_n", "h": 1, "rows": T, "ws": wenc, "wkind": "float64"})
         return {"kind": "histn", "ops": ops}
 
+    def model_adaptive(self, case, io):
+        """the base histogram with the first histogram's binnings (static bins / fixed-width grid, adaptive or not) and contents;
+        register 0 takes the transformed coordinates one by one (fill), register 1 in the chunks of the case (fill_n)"""
+        o = io["outs"]
+        I = o.get("init")
+        if I is None or o.get("fill") is None or o.get("chunks") is None:
+            return None
+        T = o["transformed"]
+        if any(v in (None, "inf", "-inf") for row in T for v in row) or any(x is None for x in I["freq"] + I["err2"]):
+            return None
+        nd = len(I["axes"])
+        axes = []
+        for mt, bins in zip(I["axes"], I["bins"]):
+            if mt["t"] == "fixed":
+                axes.append(dict(mt, align=True))
+            else:
+                axes.append({"t": "static", "bins": bins, "ire": mt["ire"]})
+        ws = case["weights"]
+        wenc = None if ws is None else [rs(w) for w in ws]
+
+        def wk(j):
+            return "pyint" if ws is None or float(ws[j]).is_integer() else "pyfloat"
+        ops = []
+        for reg in (0, 1):
+            if nd == 1:
+                ops.append({"op": "of_arrays", "out": reg, "binning": axes[0], "freq": I["freq"], "err2": I["err2"], "under": I["under"],
+                            "over": I["over"], "inner": I["inner"], "dtype": I["dtype"]})
+            else:
+                ops.append({"op": "of_arrays", "out": reg, "axes": axes, "freq": I["freq"], "err2": I["err2"], "missed": I["missed"],
+                            "dtype": I["dtype"]})
+        for j, row in enumerate(T):
+            ops.append({"op": "fill", "h": 0, "v": row[0] if nd == 1 else row, "w": "1" if ws is None else wenc[j], "wk": wk(j)})
+        a = 0
+        for c in case["chunks"]:
+            if nd == 1:
+                ops.append({"op": "fill_n", "h": 1, "vs": [r[0] for r in T[a:a + c]], "ws": None if ws is None else wenc[a:a + c], "wkind": "float64"})
+            else:
+                ops.append({"op": "fill_n", "h": 1, "rows": T[a:a + c], "ws": None if ws is None else wenc[a:a + c], "wkind": "float64"})
+            a += c
+        return {"kind": "hist1" if nd == 1 else "histn", "ops": ops}
+
+    def diff_adaptive(self, case, model_ok, io):
+        o = io["outs"]
+        nd = len(o["init"]["axes"])
+        d = []
+        if model_ok[0]["ret"] != "ok" or model_ok[1]["ret"] != "ok":
+            return [f"the model refuses the first histogram: {model_ok[0]['ret']}"]
+        final = model_ok[-1]["regs"]
+        for name, reg in (("fill", 0), ("chunks", 1)):
+            m, S = final[reg], o[name]["final"]
+            if [[[Fraction(x) for x in b] for b in ax] for ax in ([m["bins"]] if nd == 1 else m["bins"])] != \
+                    [[[Fraction(x) for x in b] for b in ax] for ax in S["bins"]]:
+                d.append(f"{name}.bins: model={m['bins']} impl={S['bins']}"[:400])
+                continue
+            for f in ("freq", "err2"):
+                if [Fraction(x) for x in m[f]] != [Fraction(x) for x in S[f]]:
+                    d.append(f"{name}.{f}: model={m[f]} impl={S[f]}"[:400])
+            if nd == 1:
+                for f in ("under", "over"):
+                    if m[f] != S[f] and (m[f] is None or S[f] is None or Fraction(m[f]) != Fraction(S[f])):
+                        d.append(f"{name}.{f}: model={m[f]} impl={S[f]}")
+            elif m["missed"] != S["missed"] and (m["missed"] is None or S["missed"] is None or Fraction(m["missed"]) != Fraction(S["missed"])):
+                d.append(f"{name}.missed: model={m['missed']} impl={S['missed']}")
+        R = o["fill"]
+        for j in range(len(case["points"])):
+            a, b = model_ok[2 + j]["ret"], R["rets"][j]
+            if nd == 1 and a == "over":
+                a = len(R["edges"][j][0]) - 1
+            if a != b:
+                d.append(f"fill return {j}: model={a} impl={b}")
+        return d[:6]
+
     def diff(self, case, model_ok, io):
+        if case.get("kind") == "adaptive":
+            return self.diff_adaptive(case, model_ok, io)
         o = io["outs"]
         E = self.model_axes(case, io)
         nd = len(E)
@@ -1884,6 +2663,8 @@ class C15:
             return o["nonempty"]
         if kind == "chain":
             return o["root"] is not None and o.get("nonempty_cells", 0) >= 2
+        if kind == "adaptive":      # an adaptive axis had to grow for one of the points
+            return bool(o.get("init") is not None and o.get("grew") and case["points"])
         if kind == "facade" and o["facade"] is None:
             return False
         key = "rets_find_t" if kind in ("special", "extreme") else "rets_find"
@@ -1899,6 +2680,17 @@ class C15:
     def neighbours(self, case):
         """the same histogram and points moved to extreme magnitudes (every coordinate times one exact power of two; the radial
         axis gets the many-decade edges so that the moved points still meet bins)"""
+        if ENABLE_ADAPTIVE and case.get("kind") == "adaptive":
+            # the same histogram built the other ways, and the points moved outwards (times 2 and 4: still eighths)
+            for b in ("facade", "set_adaptive", "class"):
+                if b != case["build"] and (b == "class" or case["init"]):
+                    yield dict(copy.deepcopy(case), build=b, tags=sorted(set(t for t in case["tags"] if not t.startswith("build:")) | {"build:" + b, "stream:adaptive_neighbour"}))
+            for f in (2.0, 4.0):
+                c = copy.deepcopy(case)
+                c["points"] = [[x * f for x in p] for p in case["points"]]
+                c["tags"] = sorted(set(case["tags"]) | {"stream:adaptive_neighbour"})
+                yield c
+            return
         if not ENABLE_EXTREME or case.get("kind", "special") not in ("special", "extreme") or not case.get("points"):
             return
         klass = case["class"]
@@ -1958,6 +2750,43 @@ class C15:
                                 c = copy.deepcopy(case)
                                 c["points"][j][i] = simpler
                                 yield c
+        if kind == "adaptive":
+            # fewer points entered (chunks and the other order follow), fewer first points, no weights
+            m = len(case["points"])
+            for j in range(m):
+                if m <= 1:
+                    break
+                c = copy.deepcopy(case)
+                del c["points"][j]
+                if c["weights"] is not None:
+                    del c["weights"][j]
+                a = 0
+                for i, n in enumerate(c["chunks"]):
+                    if a <= j < a + n:
+                        c["chunks"][i] -= 1
+                        break
+                    a += n
+                c["chunks"] = [n for n in c["chunks"] if n > 0]
+                c["perm"] = [i - (i > j) for i in c["perm"] if i != j]
+                yield c
+            for j in range(len(case["init"])):
+                if len(case["init"]) <= (0 if case["build"] == "class" else 1):
+                    break
+                c = copy.deepcopy(case)
+                del c["init"][j]
+                if c["init_weights"] is not None:
+                    del c["init_weights"][j]
+                yield c
+            for key in ("weights", "init_weights"):
+                if case[key] is not None:
+                    c = copy.deepcopy(case)
+                    c[key] = None
+                    yield c
+            if len(case["chunks"]) > 1:
+                c = copy.deepcopy(case)
+                c["chunks"] = [m]
+                yield c
+            return
         for key in ("points", "points2"):
             if key not in case:
                 continue
